@@ -22,5 +22,5 @@ use crate::CheckDef;
 
 /// Registry of the checks that exist. A check is added here when its module has a `def()`.
 pub fn all() -> Vec<CheckDef> {
-    vec![c01::def(), c03::def(), c04::def(), c06::def(), c08::def(), c11::def(), c16::def(), c19::def()]
+    vec![c01::def(), c02::def(), c03::def(), c04::def(), c06::def(), c08::def(), c11::def(), c16::def(), c19::def()]
 }
